@@ -93,3 +93,20 @@ def grid_rotation_inverse(g, o):
 @lemma(args={'g': 'Grid', 'a': 'Orientation', 'b': 'Orientation'}, props=['C18'])
 def grid_rotation_compose(g, a, b):
     check('compose', lambda: same((g * a) * b, g * (a * b)))
+
+
+@lemma(args={'a': 'Obj', 'b': 'Obj'}, props=['C03', 'C16'])
+def grid_object_eq_hash(a, b):
+    """equality is an equivalence on (type, status, colour) and equal objects hash alike"""
+    check('reflexive', lambda: a == a)
+    check('symmetric', lambda: (a == b) == (b == a))
+    check('equal-objects-hash-alike', lambda: implies(a == b, lambda: hash(a) == hash(b)))
+    check('eq-is-type-status-colour', lambda: (a == b) == (type(a) is type(b) and a.state_index == b.state_index
+                                                          and a.color is b.color))
+
+
+@lemma(args={'g': 'Grid', 's': 'State'}, props=['C03'])
+def containers_eq_reflexive(g, s):
+    check('grid-equals-itself', lambda: g == g)
+    check('agent-equals-itself', lambda: s.agent == s.agent)
+    check('state-equals-itself', lambda: s == s)
